@@ -18,7 +18,7 @@ READ_OPS = {"get", "gets", "get_many", "gets_many", "gat", "gats"}
 class Cfg:
     def __init__(self, kind="client", tls=False, ctmo=3, tmo=7, idle=0, ignore_exc=False, naddr=1,
                  unix=False, nodelay=False, keepalive=False, max_pool=None, default_noreply=True,
-                 nservers=1):
+                 nservers=1, hash_ra=1000):
         self.__dict__.update(locals())
         del self.__dict__["self"]
 
@@ -125,7 +125,7 @@ class Stack:
             self.client = PooledClient(skey, max_pool_size=cfg.max_pool, pool_idle_timeout=cfg.idle, **kw)
         else:
             self.client = HashClient([skey], use_pooling=(cfg.kind == "hashpooled"), max_pool_size=cfg.max_pool,
-                                     pool_idle_timeout=cfg.idle, retry_attempts=1000, retry_timeout=0.5,
+                                     pool_idle_timeout=cfg.idle, retry_attempts=cfg.hash_ra, retry_timeout=0.5,
                                      dead_timeout=60, **kw)
         self.calls = 0
         self.events = net.log     # the trace under construction (shared list)
